@@ -1445,8 +1445,14 @@ def execute(scenario, open_sigs):
                     freshv = {(w, jkey(canon(x, obs.memo)), jkey(canon([m, t])))
                               for (w, x, m, t) in fresh_walk}
                     if got[0] == "ok" and (st.seen_walk | new_walk) != (st.seen_walk | freshv):
-                        ok = False
-                        detail = "set of visited nodes differs from the plain walk"
+                        def zn(ss):
+                            return {tuple(x.replace('"-0.0"', '"0.0"') for x in t) for t in ss}
+                        if both_zeros and zn(st.seen_walk | new_walk) == zn(st.seen_walk | freshv) \
+                                and kf("signed-zero-conflation", SIGNED_ZERO_WHAT):
+                            pass
+                        else:
+                            ok = False
+                            detail = "set of visited nodes differs from the plain walk"
             elif fam == "count":
                 # the nodes whose walk the plain walker completed (all of them, or on a walk
                 # that fails the ones before the failure) are what the instance has counted
